@@ -5,6 +5,7 @@ import RedoModel.Lemmas.LogFollow5
 
 `orun` accepts the projection of a run exactly when every `create` of the run happens in a `CreateSafe` state or after
 the follower has returned (`SafeRunS`); the only flags it can raise on a projection are the three creation flags.
+A follower step at the end of the file projects to `eof` (and `stop` if the loop ends there).
 -/
 namespace RedoModel.LogFollow
 open Obs
@@ -12,14 +13,14 @@ open Obs
 /-- The three possibilities for one accepted step of the model. -/
 theorem sim_step (s : Sys) (e : Ev) (s' : Sys) (o : OSt) (hR : Rel s o) (hI : ObsInv s) (h : step s e = some s') :
     ((e = .create → CreateSafe s ∨ s.pc = .stopped) ∧
-      ((obsEv s e = [] ∧ Rel s' o) ∨ (∃ x o', obsEv s e = [x] ∧ ostep o x = .ok o' ∧ Rel s' o'))) ∨
+      ∃ o', osteps o (obsEv s e) = .ok o' ∧ Rel s' o') ∨
     (¬ (e = .create → CreateSafe s ∨ s.pc = .stopped) ∧
       ∃ x fl, obsEv s e = [x] ∧ ostep o x = .error fl ∧ CreationFlag fl) := by
   by_cases he : e = .create
   · subst he
     by_cases hc : CreateSafe s ∨ s.pc = .stopped
     · obtain ⟨o', h1, h2⟩ := sim_create_ok s s' o hR h hc
-      exact .inl ⟨fun _ => hc, .inr ⟨_, o', rfl, h1, h2⟩⟩
+      exact .inl ⟨fun _ => hc, o', by simp [obsEv, osteps, h1], h2⟩
     · obtain ⟨fl, h1, h2⟩ := sim_create_bad s s' o hR hI h hc
       exact .inr ⟨fun hh => hc (hh rfl), _, fl, rfl, h1, h2⟩
   · refine .inl ⟨fun hh => absurd hh he, ?_⟩
@@ -60,15 +61,10 @@ theorem obs_run_aux (es : List Ev) : ∀ (s : Sys) (o : OSt) (i : Nat), Rel s o 
       have hI1 := ObsInv_step s e s1 hI hs
       rw [hobs, hsafe]
       rcases sim_step s e s1 o hR hI hs with ⟨hc, hok⟩ | ⟨hc, x, fl, hx, hst, hfl⟩
-      · rcases hok with ⟨hnil, hR1⟩ | ⟨x, o1, hx, hst, hR1⟩
-        · rw [hnil, List.nil_append]
-          obtain ⟨a, b, c⟩ := ih s1 o i hR1 hI1
-          exact ⟨⟨fun h => ⟨hc, a.mp h⟩, fun h => a.mpr h.2⟩, b, fun o' s' h1 h2 => c o' s' h1 ((hrun s').mp h2)⟩
-        · have hor : orun o ([x] ++ obsOf s1 es) i = orun o1 (obsOf s1 es) (i + 1) := by
-            simp only [List.cons_append, List.nil_append, orun, hst]
-          rw [hx, hor]
-          obtain ⟨a, b, c⟩ := ih s1 o1 (i + 1) hR1 hI1
-          exact ⟨⟨fun h => ⟨hc, a.mp h⟩, fun h => a.mpr h.2⟩, b, fun o' s' h1 h2 => c o' s' h1 ((hrun s').mp h2)⟩
+      · obtain ⟨o1, hst, hR1⟩ := hok
+        rw [orun_append_ok _ _ o o1 i hst]
+        obtain ⟨a, b, c⟩ := ih s1 o1 (i + (obsEv s e).length) hR1 hI1
+        exact ⟨⟨fun h => ⟨hc, a.mp h⟩, fun h => a.mpr h.2⟩, b, fun o' s' h1 h2 => c o' s' h1 ((hrun s').mp h2)⟩
       · have hor : orun o ([x] ++ obsOf s1 es) i = .error (fl, i) := by
           simp only [List.cons_append, List.nil_append, orun, hst]
         rw [hx, hor]
@@ -131,9 +127,10 @@ theorem obs_accepts_safe_runs_core (insts : List (List Nat)) (ph : Phase) (o0 : 
 theorem obs_flags_core (insts : List (List Nat)) (ph : Phase) (o0 : OSt) (hR : Rel (enter insts ph) o0)
     (es : List Ev) (i : Nat) (fl : Flag) (j : Nat) (h : orun o0 (obsOf (enter insts ph) es) i = .error (fl, j)) :
     (fl = .staleOpen ∨ fl = .rebuiltDuringFollow ∨ fl = .createAfterFree) ∧
-    fl ≠ .badOrder ∧ fl ≠ .unsoundFree ∧ fl ≠ .stopWhileLocked ∧ fl ≠ .wrongInstance := by
+    fl ≠ .badOrder ∧ fl ≠ .unsoundFree ∧ fl ≠ .stopWhileLocked ∧ fl ≠ .wrongInstance ∧
+    fl ≠ .stopWithoutReread := by
   have hc := (obs_run_aux es _ o0 i hR (ObsInv_enter insts ph)).2.1 fl j h
-  refine ⟨hc, ?_, ?_, ?_, ?_⟩ <;> (intro hfl; subst hfl; rcases hc with h | h | h <;> cases h)
+  refine ⟨hc, ?_, ?_, ?_, ?_, ?_⟩ <;> (intro hfl; subst hfl; rcases hc with h | h | h <;> cases h)
 
 theorem obs_final_state_core (insts : List (List Nat)) (ph : Phase) (o0 : OSt) (hR : Rel (enter insts ph) o0)
     (es : List Ev) (i : Nat) (o' : OSt) (s : Sys) (h : orun o0 (obsOf (enter insts ph) es) i = .ok o')
